@@ -19,11 +19,12 @@ PROP = dict(race_binary=True,
          "back-pressure (the panel stops reading while a handler's 24-40 x 1 MiB feedback fills the outgoing queue, pings in that window, reads again: "
          "one ack per ping); Bind* from a second goroutine during a burst (child process; thorough: also race-instrumented); Bind* calls at "
          "scripted points between events (K items: earlier events are not delivered to the new handler, later ones exactly once). "
-         "Not in the default run (open findings, library unchanged): VERIF_C19_CONNECT=1 adds the connection lost inside the initialisation window "
-         "(init=close0|close2|overlimit|stall), VERIF_C19_ACKFLOW=1 adds messages with flow field ACK that carry an event / identity. "
+         "the connection lost inside the initialisation window (init=close0|close2|overlimit|stall: the panel closes / sends a 500000 header / stalls a frame; "
+         "Connect must fail), the complete answer followed at once by the close (init=fullclose, compare-only: either result accepted), messages with flow "
+         "field ACK that carry an event / identity / a ping (must be processed). "
          "EQ = Connect's result, invocation log, ack "
-         "count and final state equal the model's (Gorwp.connect / dispatchDyn over readerView / acks / finalState; the reader and init variants and a stall are reported as branch "
-         "tags); H = Spec/GorwpSpec.lean on the observation; distinct = distinct script text",
+         "count and final state equal the model's (Gorwp.connect true / dispatchDyn over readerView / acks / finalState of the code as it is; VERIF_C19_MODEL=pinned selects the model of the "
+         "pinned code for replays of the old findings); H = Spec/GorwpSpec.lean on the observation; distinct = distinct script text",
     trusted_base=["Go scheduler, memory model (data races are looked for with the runtime's map check and, thorough, -race: supporting evidence only), "
                   "kernel TCP and the wall clock are outside the model",
                   "library converters between the ASCII protocol and messages (C02/C04) are used as they are; scripts whose messages "
@@ -42,23 +43,22 @@ CLAIM = dict(
          "are the latest non-empty values, the parsed topology is built from the latest JSON only (C19.topology_getter_from_latest_json, under the model's "
          "assumption of a fresh object per update, which the harness checks on the implementation by comparing digests; JSON parsing itself is not modelled) and the "
          "availability map holds the latest value per key; IsInitialized holds exactly when model, serial, topology JSON and SVG have all arrived; the reader's "
-         "ACK filter loses nothing when ACK messages carry nothing else (C19.reader_filter_transparent). Connect as it should be (cancelled context during "
+         "ACK filter (a bare acknowledge only) loses nothing (C19.reader_filter_transparent). Connect as it should be (cancelled context during "
          "initialisation = error unless initialised) succeeds exactly when the four items arrive within the window, for every course of the window "
          "(C19.connect_succeeds_iff_four_items_in_window). (b) For an LTS of reader, dispatcher and writer goroutines (code as it is; the pinned code had one select "
          "loop) around the two bounded queues, for all queue capacities >= 1 (instantiated with the capacities extracted from the source): "
          "with the over-limit branch returning nothing after a broken frame is ever dispatched and every message before it is "
          "dispatched at most once in order; with the writer decoupled from the dispatcher a blocked dispatcher is always released, no state with pending events is stuck, "
          "every non-ticker step decreases a progress measure, and every run that is strongly fair to reader, dispatcher and writer eventually has dispatched exactly the "
-         "messages before the first broken frame (C19.all_dispatched_eventually). Refuted by concrete executions: pinned code "
-         "(C19.overlimit_keeps_parsing_counterexample, C19.queue_self_deadlock_counterexample, blocked state permanent); CODE AS IT IS, open findings: "
-         "Connect returns success whenever the connection is lost inside the initialisation window (C19.connect_pinned_success_on_lost_connection_counterexample) and the "
-         "binary reader drops an ACK message together with an event it carries (C19.ack_message_with_event_dropped_counterexample). Tie to the code: the real client is run against "
+         "messages before the first broken frame (C19.all_dispatched_eventually). Refuted by concrete executions for the pinned code "
+         "(C19.overlimit_keeps_parsing_counterexample, C19.queue_self_deadlock_counterexample with the blocked state permanent, "
+         "C19.connect_pinned_success_on_lost_connection_counterexample: Connect returned success whenever the connection was lost inside the initialisation window, "
+         "C19.ack_message_with_event_dropped_counterexample: the binary reader dropped an ACK message together with an event it carried; all four repaired by fix: commits). Tie to the code: the real client is run against "
          "scripted loopback panels; Connect's result, invocation log, acks on the wire and getters are compared with the model and judged by "
          "the independent monitors.",
     note=TB + "PARTIAL: proof of the dispatch logic and of the queue/reader LTS over all interleavings + trace validation against the real "
          "client. Outside the model: the Go scheduler (liveness is proved under strong fairness of the three goroutines), the Go memory model (the Bind*/dispatch data race is invisible to the LTS; it shows as "
          "a runtime crash `concurrent map read and map write` in a child process and under -race), kernel TCP, real time (2 s window, 10 ms poll and 5 s "
-         "burst bound are checked on runs with tolerances), JSON parsing of the topology, the ASCII converters. The two open findings are sampled only with "
-         "VERIF_C19_CONNECT=1 / VERIF_C19_ACKFLOW=1.",
+         "burst bound are checked on runs with tolerances), JSON parsing of the topology, the ASCII converters.",
     technique="Lean 4 pure model + induction over histories; LTS with inductive invariants, progress measure and fair infinite runs; decide counterexamples; trace validation on the real client",
 )
